@@ -256,6 +256,11 @@ type RangeError struct {
 	operation *Operation
 }
 
+// NewRangeError creates a new RangeError
+func NewRangeError(details string) *RangeError {
+	return &RangeError{details: details}
+}
+
 // Error implements the error interface
 func (e *RangeError) Error() string {
 	msg := rangeError
